@@ -2427,9 +2427,14 @@ class Parser:
                 parts.append(",")
             elif token.type == TokenType.IDENTIFIER:
                 parts.append(str(token.value))
+            elif token.type not in (TokenType.NEWLINE, TokenType.INDENT, TokenType.COMMENT):
+                # Every other token (VERSION, VARIABLE, ':', the remaining operators)
+                # carries content: dropping it silently changed the pattern
+                # (CONST[1.0.0] -> CONST[], ENUM[a|b] -> ENUM[ab]).
+                parts.append(_token_to_str(token))
             # Note: LPAREN/RPAREN are not supported by the lexer,
             # so TYPE(X) patterns will fail at tokenization level.
-            # Skip whitespace tokens
+            # Whitespace and comment tokens are skipped
 
         return "".join(parts)
 
